@@ -53,8 +53,8 @@ from fpy2.transform import ConstFold, CopyPropagate, DeadCodeEliminate
 NSHARDS = 64
 BATCH = 40
 SLICES = 8                    # the quick tier adds 1/SLICES of the next size, chosen by the seed
-CALL_TIMEOUT = 10.0           # seconds; four orders of magnitude above a normal call
-TRANSFORM_TIMEOUT = 30.0
+CALL_TIMEOUT = 2.0            # CPU seconds; three orders of magnitude above a normal call (< 1 ms)
+TRANSFORM_TIMEOUT = 10.0      # CPU seconds; a normal transformation takes a few ms
 
 SWITCHES = ('enable_const_fold', 'enable_const_fold_context', 'enable_const_fold_op',
             'enable_copy_prop', 'enable_dead_code_elim')
@@ -74,13 +74,15 @@ def _on_alarm(signum, frame):
 
 
 def _with_limit(seconds, fn, *args, **kwargs):
-    old = signal.signal(signal.SIGALRM, _on_alarm)
-    signal.setitimer(signal.ITIMER_REAL, seconds)
+    """Runs fn under a limit on the CPU time this process spends in it (ITIMER_VIRTUAL: user time of
+    the process, so the limit means the same on a loaded machine)."""
+    old = signal.signal(signal.SIGVTALRM, _on_alarm)
+    signal.setitimer(signal.ITIMER_VIRTUAL, seconds)
     try:
         return fn(*args, **kwargs)
     finally:
-        signal.setitimer(signal.ITIMER_REAL, 0)
-        signal.signal(signal.SIGALRM, old)
+        signal.setitimer(signal.ITIMER_VIRTUAL, 0)
+        signal.signal(signal.SIGVTALRM, old)
 
 
 # --------------------------------------------------------------------------
@@ -149,7 +151,7 @@ def show_outcome(o) -> str:
     if o[0] == 'ret':
         return show_tree(o[1])
     if o[0] == 'timeout':
-        return f'<no result within {CALL_TIMEOUT:.0f} s>'
+        return f'<no result within {CALL_TIMEOUT:.0f} s of CPU time>'
     return f'<raises {o[1]}: {o[2]}>'
 
 
@@ -779,7 +781,7 @@ class Check(BaseCheck):
         'the original and the transformed program run on the same default interpreter; the interpreter itself is '
         'checked by C04',
         'only inputs on which the original returns are judged',
-        f'a call that does not finish within {CALL_TIMEOUT:.0f} s (normal: < 1 ms) counts as not returning',
+        f'a call that uses more than {CALL_TIMEOUT:.0f} s of CPU time (normal: < 1 ms) counts as not returning',
         'sizes, families and pools are bounds: larger programs, other statement kinds and other inputs are not explored',
     ]
     trusted_base = ['CPython', 'fpy2 front end and bytecode interpreter (as the common evaluator of both sides)']
